@@ -203,14 +203,15 @@ Theorem C14_evicted_not_resumed :
 Proof. exact evicted_not_resumed. Qed.
 Print Assumptions C14_evicted_not_resumed.
 
-(* A full handshake in which the client presented a certificate leaves the server's store untouched
-   and the server's session id empty. *)
+(* A full handshake in which the client presented a certificate writes no session into the
+   server's store (entries can only disappear) and leaves the server's session id empty. *)
 Theorem C14_client_cert_not_stored :
   forall (K V : Type) (KB : secret -> N -> N -> K) (VD : bool -> secret -> N * N * bid -> V)
          (K_eqb : K -> K -> bool) (V_eqb : V -> V -> bool) (p : params) (cs ss : store),
     p_ccert p = true -> r_mode (conn K V KB VD K_eqb V_eqb p cs ss) = Full ->
-    r_sops (conn K V KB VD K_eqb V_eqb p cs ss) = [] /\
-    post_s ss (conn K V KB VD K_eqb V_eqb p cs ss) = ss /\
+    forallb (fun o : mop => negb (is_set o)) (r_sops (conn K V KB VD K_eqb V_eqb p cs ss)) = true /\
+    (forall k : bid, get k (post_s ss (conn K V KB VD K_eqb V_eqb p cs ss)) = get k ss \/
+                     get k (post_s ss (conn K V KB VD K_eqb V_eqb p cs ss)) = None) /\
     (o_out (r_s (conn K V KB VD K_eqb V_eqb p cs ss)) = Established ->
        o_sid (r_s (conn K V KB VD K_eqb V_eqb p cs ss)) = 0).
 Proof. exact client_cert_not_stored. Qed.
